@@ -291,6 +291,13 @@ func (kc *kernelCtx) runFunc(b *Block) *Unit {
 	if c := b.first("recv"); c != nil {
 		recvName = strings.TrimSpace(c.Text)
 	}
+	// the type contract must still bind: every field / cell it names exists (a renamed field makes every obligation of the
+	// type's functions meaningless - reported as "does not bind", never as a violation)
+	if ts != nil {
+		if missing := kc.typeSpecUnbound(ts, outer, fns); len(missing) > 0 {
+			u.Errs = append(u.Errs, fmt.Sprintf("contract of type %s does not bind: no field or cell named %s", ts.Name, strings.Join(missing, ", ")))
+		}
+	}
 	x.RecvName = recvName
 	x.PanicForks = b.first("panicforks") != nil
 	inline := map[string]bool{}
@@ -1008,4 +1015,53 @@ func (kc *kernelCtx) lockInvAt(x *Exec, st *State, ts *TypeSpec, recv, inv, key,
 	// assumptions introduced for the arbitrary state (slice lengths >= 0) stay in s2.PC only; add them as antecedent
 	extra := s2.PC[len(st.PC):]
 	return imp(and(append(extra, a)...), bb), nil
+}
+
+// typeSpecUnbound lists the names a type contract declares (atomic, const, free, sync, protected fields, locks) that are
+// neither ghosts nor fields of the receiver's struct nor cells of the closure environment.
+func (kc *kernelCtx) typeSpecUnbound(ts *TypeSpec, outer *ssa.Function, fns map[string]*ssa.Function) []string {
+	have := map[string]bool{}
+	if ts.Env != "" {
+		if ts.CellTypes == nil {
+			if top := fns[ts.Env]; top != nil {
+				ts.CellTypes = cellTypes(top)
+			}
+		}
+		for n := range ts.CellTypes {
+			have[n] = true
+		}
+	} else if outer.Signature.Recv() != nil {
+		if st, ok := isStruct(derefType(outer.Signature.Recv().Type())); ok {
+			for i := 0; i < st.NumFields(); i++ {
+				have[st.Field(i).Name()] = true
+			}
+		}
+	} else {
+		return nil
+	}
+	if len(have) == 0 {
+		return nil
+	}
+	want := map[string]bool{}
+	for f := range ts.Atomic {
+		want[f] = true
+	}
+	for _, m := range []map[string]bool{ts.Const, ts.Free, ts.Sync} {
+		for f := range m {
+			want[f] = true
+		}
+	}
+	for f, l := range ts.Prot {
+		want[f] = true
+		want[l] = true
+	}
+	var missing []string
+	for f := range want {
+		if _, ghost := ts.Ghost[f]; ghost || have[f] {
+			continue
+		}
+		missing = append(missing, f)
+	}
+	sort.Strings(missing)
+	return missing
 }
